@@ -6,7 +6,11 @@ from .gridprop import GridProp
 def _items(tier):
     from autograd.core import primitive_jvps, primitive_vjps
 
-    return [c for c in grid.real_grid(tier) + grid.complex_grid(tier) if "nooracle_skip" not in c.tags]
+    idx = grid.index_grid(tier)
+    if tier == "quick":
+        # every advanced / mixed index expression, every third basic one
+        idx = [c for i, c in enumerate(idx) if "[" in c.label.split("x[", 1)[-1][:-1].replace("] on shape", "") or "mix" in c.tags or i % 3 == 0]
+    return [c for c in grid.real_grid(tier) + grid.complex_grid(tier) + idx + grid.program_grid(tier) if "nooracle_skip" not in c.tags]
 
 
 GridProp(
